@@ -9,6 +9,21 @@ Open Scope N_scope.
 Lemma slice_prefix : forall {A} (l : list A) t, slice l (0, t) = firstn (N.to_nat t) l.
 Proof. intros A l t. unfold slice. cbn [fst snd skipn N.to_nat]. now rewrite N.sub_0_r. Qed.
 
+(* a range that reaches beyond the end of the list reads what is there: clamping both ends to the
+   length changes nothing (used by Corr/C09.v to evaluate huge hand-built ranges cheaply) *)
+Lemma slice_clamp : forall {A} (l : list A) s e,
+  slice l (N.min s (nlen l), N.min e (nlen l)) = slice l (s, e).
+Proof.
+  intros A l s e. unfold slice, nlen. cbn [fst snd].
+  destruct (N.le_gt_cases (N.of_nat (length l)) s) as [Hs|Hs].
+  - rewrite (skipn_all2 l) by lia. rewrite (skipn_all2 l) by lia. now rewrite !firstn_nil.
+  - replace (N.min s (N.of_nat (length l))) with s by lia.
+    destruct (N.le_gt_cases e (N.of_nat (length l))) as [He|He].
+    + now replace (N.min e (N.of_nat (length l))) with e by lia.
+    + replace (N.min e (N.of_nat (length l))) with (N.of_nat (length l)) by lia.
+      rewrite !firstn_all2; [reflexivity| |]; rewrite skipn_length; lia.
+Qed.
+
 Lemma last_end_chain : forall rs b, chain 0 rs b -> last_end rs = b.
 Proof. intros rs b H. unfold last_end. exact (chain_last_end rs 0 b H). Qed.
 
